@@ -34,8 +34,9 @@ pub fn enc_state(o: &mut Out, s: &Screen) {
     o.u(s.columns); o.u(s.lines);
     enc_cursor(o, &s.cursor);
     match s.margins { None => o.u(0), Some(m) => { o.u(1); o.u(m.top); o.u(m.bottom); } }
-    let set = |o: &mut Out, h: &std::collections::HashSet<u32>| { let v: BTreeSet<u32> = h.iter().cloned().collect(); o.u(v.len() as u32); for x in v { o.u(x); } };
-    set(o, &s.mode); set(o, &s.tabstops); set(o, &s.dirty);
+    // written against `iter()` only, so that the container types of these fields may change
+    fn set_of<'a, I: Iterator<Item = &'a u32>>(o: &mut Out, it: I) { let v: BTreeSet<u32> = it.cloned().collect(); o.u(v.len() as u32); for x in v { o.u(x); } }
+    set_of(o, s.mode.iter()); set_of(o, s.tabstops.iter()); set_of(o, s.dirty.iter());
     o.u(if s.charset == Charset::G0 { 0 } else { 1 }); o.u(csid(&s.g0_charset)); o.u(csid(&s.g1_charset));
     o.s(&s.title); o.s(&s.icon_name);
     o.opt(s.saved_columns);
